@@ -1,11 +1,13 @@
 #include "sim/runner.h"
 #include "worlds/engine_world.h"
+#include "worlds/queue_world.h"
 
 namespace runner {
 World* makeWorld(const std::string& property) {
   if (property == "C01" || property == "C02" || property == "C03" || property == "C04" || property == "C05" ||
       property == "C06" || property == "C07")
     return wa::makeEngineWorld(property);
+  if (property == "C16") return wc::makeQueueWorld();
   return nullptr;
 }
 } // namespace runner
